@@ -173,4 +173,348 @@ class C02(Prop):
                 book = []
 
 
-ALL = {c.id: c for c in [C02]}
+# ---------------------------------------------------------------- helpers on the jura protocol
+
+def jura_book(toks):
+    out = []
+    for k in range(0, len(toks), 7):
+        i, a, b, px, sz, kind, att = toks[k:k + 7]
+        out.append({"id": int(i), "asset": a, "buy": b == "1", "px": px, "sz": sz, "kind": kind, "att": att == "1"})
+    return out
+
+
+def jura_fills(toks):
+    out = []
+    for k in range(0, len(toks), 6):
+        c, oid, px, side, sz, tm = toks[k:k + 6]
+        out.append({"coin": c, "oid": int(oid), "px": px, "side": side, "sz": sz, "time": int(tm)})
+    return out
+
+
+EXCH_STATE = {"B", "U", "N", "X", "L"}
+
+
+def exch_streams(kind, prop_tags_uist, prop_tags_jura, q=300, t=30000, canon=None):
+    ss = []
+    if prop_tags_uist is not None:
+        ss.append(Stream("uist", kind, quick=q, thorough=t, tags=set(prop_tags_uist) | {"REJECT-ADMISSION", "PANIC", "ok", "reset", "bad-op"},
+                         state_tags=EXCH_STATE - set(prop_tags_uist), canon=canon))
+    if prop_tags_jura is not None:
+        ss.append(Stream("jura", kind, quick=q, thorough=t, tags=set(prop_tags_jura) | {"REJECT-ADMISSION", "PANIC", "ok", "reset", "bad-op"},
+                         state_tags=EXCH_STATE - set(prop_tags_jura)))
+    return ss
+
+
+def walk_exchange(stream, annot, impl):
+    """iterate a uist/jura case: yields (k, op, sections, pre_book, inserted_since_last_tick, tick_no)"""
+    book, batch, ticks = [], [], 0
+    for k, (op, out) in enumerate(zip(annot, impl)):
+        s = sections(out)
+        yield k, op, s, book, batch, ticks
+        if op.startswith("I "):
+            batch = batch + [op.split()[1:]]
+        if op.startswith("T ") and "PANIC" not in s:
+            batch, ticks = [], ticks + 1
+        if "B" in s:
+            book = uist_orders(s["B"][1:]) if stream.component == "uist" else jura_book(s["B"][1:])
+        if op.startswith("RESET"):
+            book, batch, ticks = [], [], 0
+
+
+class C01(Prop):
+    id = "C01"
+    streams = exch_streams("mix", {"F", "A"}, {"F", "K", "N"})
+    determined = False
+    rule = ("random Uist and Jura histories (all order types, per-symbol quote gaps, deletions); non-trivial = an order was "
+            "inserted, admitted by a tick and filled by a later tick in the same case; distinct = distinct op sequences")
+    level_text = ("Theorems C01.* (Lean 4): on both exchange models, after any history, every fill of a tick belongs to an id below "
+                  "the next-id value at entry while everything admitted by the tick gets an id at or above it, each fill is priced and "
+                  "dated from the quotes passed to that tick only; server level: every fill is dated strictly after the clock at which "
+                  "its order was submitted while ticks are issued only as long as has_next allows. Tied to the code by the "
+                  "exchange- and server-level correspondence runs; a monitor checks on the implementation's own traces that no order "
+                  "fills on or before the tick that admits it and that fill dates and prices come from the current tick's quotes.")
+    level_note = ("Proof over the model (any linear order); correspondence is differential; admission order taken from the implementation")
+    technique = "Lean 4 invariant proof (ids below next-id at entry; ghost admission positions) + model/implementation correspondence + trace monitor"
+    design_ref = "DESIGN.md section 8, C01"
+    assumptions = ["clients stop ticking once has_next is false (stated in the property)",
+                   "datasets have strictly increasing dates with each quote stored under its own date (what Penelope::add_quote builds)"]
+
+    def nontrivial(self, stream, annot, impl):
+        return any("F" in sections(l) and sections(l)["F"] and sections(l)["F"][0] not in ("0",) for l in impl[2:])
+
+    def monitor(self, stream, annot, impl):
+        stamp = {}   # uist: (sym, qty) -> number of ticks completed when the order was inserted
+        admitted_at = {}   # jura: id -> tick number that admitted / created it
+        nxt = 0
+        for k, op, s, book, batch, ticks in walk_exchange(stream, annot, impl):
+            t = op.split()
+            if stream.component == "uist":
+                if t[0] == "I":
+                    stamp[(t[2], t[3])] = ticks
+                if t[0] == "T" and "F" in s:
+                    quotes = uist_quotes(op)
+                    for f in uist_trades(s["F"][1:]):
+                        st = stamp.get((f["sym"], f["qty"]))
+                        if st is None:
+                            yield (k, "fill-of-unknown-order", f"{f}")
+                            return
+                        # inserted after `st` ticks: admitted by tick st+1, may fill from tick st+2 = index ticks+1 >= st+2
+                        if ticks + 1 < st + 2:
+                            yield (k, "fills-on-admitting-tick", f"order inserted after {st} ticks filled by tick {ticks + 1}: {f}")
+                            return
+                        q = quotes.get(f["sym"])
+                        if q is None or f["date"] != q["date"]:
+                            yield (k, "fill-dated-by-this-tick", f"fill {f} but the tick's quote for the symbol is {q}")
+                            return
+                        px = q["ask"] if f["side"] == "B" else q["bid"]
+                        if fdec(f["value"]) != px * fdec(f["qty"]):
+                            yield (k, "fill-priced-by-this-tick", f"fill {f} but the tick's quote is {q}")
+                            return
+            else:
+                if t[0] == "T" and "F" in s:
+                    quotes = uist_quotes(op)
+                    pre_ids = {o["id"] for o in book}
+                    for f in jura_fills(s["F"][1:]):
+                        if f["oid"] not in pre_ids:
+                            yield (k, "fills-on-admitting-tick", f"fill for id {f['oid']} which was not resting before this tick")
+                            return
+                        q = quotes.get(f["coin"])
+                        if q is None or f["time"] != q["date"] or fdec(f["px"]) != (q["ask"] if f["side"] == "A" else q["bid"]):
+                            yield (k, "fill-priced-and-dated-by-this-tick", f"fill {f} but the tick's quote is {q}")
+                            return
+
+
+class C03(Prop):
+    id = "C03"
+    streams = exch_streams("mix", {"F", "A", "B", "N"}, {"F", "K", "N", "B", "X"})
+    determined = False
+    rule = ("random Uist and Jura histories with deletions of resting, stale, buffered and never-issued ids; non-trivial = the "
+            "case contains a fill, a deletion that removed a resting order and a deletion that hit nothing; distinct op sequences")
+    level_text = ("Theorems C03.* (Lean 4): for every operation history of either exchange model, admitted ids are 0,1,2,… in admission "
+                  "order (never reused), filled ++ cancelled ++ resting is a permutation of the admitted ids (Uist, ghost log), delete-by-id "
+                  "removes exactly the resting order with that id (and asset on Jura) and is the identity otherwise, and a spent id "
+                  "(filled, cancelled, fired, expired IOC) is never filled again (Jura). Tied to the code by whole-state correspondence "
+                  "(book, buffer, next id) and a conservation monitor over the implementation's traces.")
+    level_note = "Proof over the model; differential tie; Uist fills are matched to orders through pairwise distinct quantities"
+    technique = "Lean 4 induction over operation histories with a ghost event log (permutation invariant) + correspondence + conservation monitor"
+    design_ref = "DESIGN.md section 8, C03"
+    assumptions = ["u64 id counter does not overflow"]
+
+    def nontrivial(self, stream, annot, impl):
+        fill = hit = miss = False
+        prev = None
+        for op, out in zip(annot, impl):
+            s = sections(out)
+            if "F" in s and s["F"] and s["F"][0] != "0":
+                fill = True
+            if op.startswith("D ") and prev is not None and "B" in s:
+                if s["B"][0] != prev:
+                    hit = True
+                else:
+                    miss = True
+            if "B" in s:
+                prev = s["B"][0]
+        return fill and hit and miss
+
+    def monitor(self, stream, annot, impl):
+        uist = stream.component == "uist"
+        admitted, filled, gone = [], set(), set()      # ids
+        qty_to_id = {}
+        nxt = 0
+        for k, op, s, book, batch, ticks in walk_exchange(stream, annot, impl):
+            t = op.split()
+            if t[0] == "RESET":
+                admitted, filled, gone, qty_to_id, nxt = [], set(), set(), {}, 0
+                continue
+            if "B" not in s:
+                continue
+            post = uist_orders(s["B"][1:]) if uist else jura_book(s["B"][1:])
+            post_ids = [o["id"] for o in post]
+            if len(set(post_ids)) != len(post_ids):
+                yield (k, "unique-ids", f"duplicate id in the book: {post_ids}")
+                return
+            if t[0] == "D":
+                target = int(t[1]) if uist else int(t[2])
+                pre_ids = [o["id"] for o in book]
+                if uist:
+                    expect = [i for i in pre_ids if i != target]
+                else:
+                    expect = [o["id"] for o in book if not (o["id"] == target and o["asset"] == t[1])]
+                if post_ids != expect:
+                    yield (k, "cancel-removes-exactly-that-order", f"book ids {pre_ids} -> {post_ids} after cancelling {t[1:]}")
+                    return
+                gone |= set(pre_ids) - set(post_ids)
+            if t[0] == "T" and "F" in s:
+                pre_ids = [o["id"] for o in book]
+                if uist:
+                    fills = uist_trades(s["F"][1:])
+                    adm = uist_orders(s["A"][1:])
+                    new_ids = [o["id"] for o in adm]
+                    fill_ids = []
+                    for f in fills:
+                        i = qty_to_id.get((f["sym"], f["qty"]))
+                        if i is None:
+                            yield (k, "fill-for-full-quantity-of-an-admitted-order", f"{f}")
+                            return
+                        fill_ids.append(i)
+                    for o in adm:
+                        qty_to_id[(o["sym"], o["sh"])] = o["id"]
+                    if len(adm) != len(batch):
+                        yield (k, "admitted-exactly-once", f"{len(batch)} orders submitted, {len(adm)} reported admitted")
+                        return
+                else:
+                    fills = jura_fills(s["F"][1:])
+                    fill_ids = [f["oid"] for f in fills]
+                    kids = [int(x) for x in s["K"][1:]]
+                    n_adm = int(s["N"][0])
+                    if n_adm != len(batch):
+                        yield (k, "admitted-exactly-once", f"{len(batch)} orders submitted, {n_adm} reported admitted")
+                        return
+                    by_id = {o["id"]: o for o in book}
+                    for f in fills:
+                        o = by_id.get(f["oid"])
+                        if o is None or o["sz"] != f["sz"] or o["asset"] != f["coin"]:
+                            yield (k, "fill-for-full-quantity-of-an-admitted-order", f"{f} vs resting {o}")
+                            return
+                    new_ids = kids + list(range(nxt + len(kids), nxt + len(kids) + n_adm))
+                    if int(s["X"][0]) != nxt + len(kids) + n_adm:
+                        yield (k, "fresh-ids", f"next id {s['X'][0]} after {len(kids)} children and {n_adm} admissions from {nxt}")
+                        return
+                if new_ids != list(range(nxt, nxt + len(new_ids))):
+                    yield (k, "fresh-ids", f"ids handed out {new_ids}, next id was {nxt}")
+                    return
+                nxt += len(new_ids)
+                for i in fill_ids:
+                    if i in filled or i in gone:
+                        yield (k, "fills-at-most-once", f"id {i} fills after it was already filled, cancelled or expired")
+                        return
+                    if i not in pre_ids:
+                        yield (k, "fill-of-resting-order", f"id {i} fills but was not resting")
+                        return
+                filled |= set(fill_ids)
+                admitted += new_ids
+                # whatever left the book without a fill expired / fired (Jura) -- Uist has no such path
+                left = set(pre_ids) - set(post_ids) - set(fill_ids)
+                if uist and left:
+                    yield (k, "conservation", f"ids {sorted(left)} left the book without fill or cancellation")
+                    return
+                gone |= left
+            # admitted = filled + cancelled/expired + resting, disjointly
+            if sorted(admitted) != sorted(list(filled) + list(gone) + post_ids):
+                yield (k, "conservation", f"admitted {sorted(admitted)} filled {sorted(filled)} gone {sorted(gone)} resting {post_ids}")
+                return
+
+
+class C17(Prop):
+    id = "C17"
+    streams = exch_streams("batch", {"F", "A"}, {"F", "K", "N"}, q=120, t=4000)
+    determined = False
+    rule = ("batches of 1..300 orders (thorough: up to 5000) straddling the standard library's small-sort thresholds (20/21, 32/33, "
+            "64/65), in random / buys-first / alternating / run arrangements of sides and all order types, on both exchanges; "
+            "non-trivial = a batch with both sides larger than 20 orders was admitted and a later tick filled orders of both sides")
+    level_text = ("Theorems C17.* (Lean 4): for every admission order that is a sell-first permutation of the submitted batch, the admitted "
+                  "list is that permutation stamped with consecutive ids (so the admitted set is the submitted set and every sell's id is "
+                  "below every buy's), ids in the book increase strictly in every reachable state, and the fills of a tick are in "
+                  "increasing id order. That sort_by under the one-sided comparator returns a sell-first permutation is outside the "
+                  "proof (unspecified by std): it is checked on every admitted batch of every run by the driver and by a monitor.")
+    level_note = ("Partial: the standard library's behaviour for a comparator that is not a total order is assumed, and validated on every "
+                  "run for batch sizes across all sort thresholds; the rest is proved over the model")
+    technique = "Lean 4 proof relative to a checked sell-first-permutation oracle for sort_by + batch-size-targeted correspondence"
+    design_ref = "DESIGN.md sections 5.1 and 8, C17"
+    assumptions = ["slice::sort_by with the one-sided comparator yields a sell-first permutation (checked on every batch, not proved)"]
+
+    def nontrivial(self, stream, annot, impl):
+        big = False
+        for op in annot:
+            if op.startswith("T ") and " A " in op:
+                n = int(op.split(" A ")[1].split()[0])
+                if n > 20:
+                    big = True
+        return big and any("F" in sections(l) and sections(l)["F"][0] not in ("0", "1") for l in impl if l.startswith("F"))
+
+    def monitor(self, stream, annot, impl):
+        uist = stream.component == "uist"
+        last_id = -1
+        qty_to_id = {}
+        for k, op, s, book, batch, ticks in walk_exchange(stream, annot, impl):
+            t = op.split()
+            if t[0] == "RESET":
+                last_id, qty_to_id = -1, {}
+            if t[0] != "T" or "F" not in s:
+                continue
+            if " A " in op and op.split(" A ")[1].split()[1:] == ["BAD"]:
+                yield (k, "admitted-set-is-submitted-set", "the admitted list is not a permutation of the submitted batch")
+                return
+            idx = [int(x) for x in op.split(" A ")[1].split()[1:]]
+            if sorted(idx) != list(range(len(batch))):
+                yield (k, "admitted-set-is-submitted-set", f"admission indices {idx[:20]} for a batch of {len(batch)}")
+                return
+            if uist:
+                sides = [is_sell(int(batch[i][0])) for i in idx]
+            else:
+                sides = [batch[i][1] == "0" for i in idx]
+            if any(b and not a for a, b in zip(sides, sides[1:])):
+                yield (k, "sells-admitted-before-buys", f"a buy precedes a sell in the admitted batch (sides sell={sides[:40]})")
+                return
+            if uist:
+                adm = uist_orders(s["A"][1:])
+                ids = [o["id"] for o in adm]
+                fills = [qty_to_id.get((f["sym"], f["qty"]), -1) for f in uist_trades(s["F"][1:])]
+                for o in adm:
+                    qty_to_id[(o["sym"], o["sh"])] = o["id"]
+            else:
+                kids = [int(x) for x in s["K"][1:]]
+                # Jura does not return the ids of admitted orders: they are the ids handed out after the children
+                ids = kids + list(range(int(s["X"][0]) - len(idx), int(s["X"][0])))
+                fills = [f["oid"] for f in jura_fills(s["F"][1:])]
+            if any(b <= a for a, b in zip([last_id] + ids, ids)):
+                yield (k, "ids-grow-with-admission", f"ids {ids[:20]} after {last_id}")
+                return
+            if ids:
+                last_id = ids[-1]
+            if any(b <= a for a, b in zip(fills, fills[1:])):
+                yield (k, "fills-in-admission-order", f"fill ids {fills[:30]}")
+                return
+
+
+class C18(Prop):
+    id = "C18"
+    streams = exch_streams("mix", None, {"F", "K", "N"}, q=500, t=40000)
+    determined = True
+    determined_why = ("for a given resting book, attempted flags and tick quotes the property fixes the fills (IOC at the 10% tolerance, "
+                      "GTC at the limit), which triggers fire, the announced child ids and that children wait for the following tick")
+    rule = ("random Jura histories over the eight constructors and deserialised orders (trigger price different from the limit, "
+            "is_market=false), decimal strings in three spellings, quote gaps, cancellations; prices on a quarter-point grid so that "
+            "ask = limit*1.1, bid = limit*0.9 and bid/ask = trigger are hit; non-trivial = the case has a fill, a fired trigger and an "
+            "IOC order that was dropped unfilled")
+    level_text = ("Theorems C18.* (Lean 4): per-order visit lemmas give the IOC / GTC / four trigger conditions exactly as stated (iff), "
+                  "the shape of fills and children; over every history: whole-book form of a tick (survivors, children with fresh "
+                  "consecutive announced ids, then the admitted batch), children and admitted orders cannot fill in the tick that creates "
+                  "them, and an IOC order is spent after the first tick that quotes its asset and never fills in any continuation. Tied to "
+                  "the code by whole-state correspondence (book with attempted flags, next id) on boundary-rich histories.")
+    level_note = "Proof over the model at any linear order with + - * and decimal literals; binary64 rounding of limit*(1±0.1) is shared by model and code (same IEEE operations) but not covered by the theorems' exact-arithmetic reading"
+    technique = "Lean 4 case analysis of the per-order visit + refinement of the deferred delete/insert pass + induction over histories (spent ids) + correspondence"
+    design_ref = "DESIGN.md section 8, C18"
+    assumptions = ["TimeInForce::Alo is unimplemented!() in the code and excluded", "decimal strings parse to the binary64 the harness computed (checked by the harness)"]
+
+    def nontrivial(self, stream, annot, impl):
+        fill = fired = dropped = False
+        book = []
+        for op, out in zip(annot, impl):
+            s = sections(out)
+            if "F" in s and s["F"][0] != "0":
+                fill = True
+            if "K" in s and s["K"][0] != "0":
+                fired = True
+            if "B" in s:
+                nb = jura_book(s["B"][1:])
+                if op.startswith("T ") and "F" in s:
+                    fl = {f["oid"] for f in jura_fills(s["F"][1:])}
+                    for o in book:
+                        if o["kind"] == "L:ioc" and o["att"] and o["id"] not in fl and o["id"] not in {x["id"] for x in nb}:
+                            dropped = True
+                book = nb
+        return fill and fired and dropped
+
+
+ALL = {c.id: c for c in [C01, C02, C03, C17, C18]}
